@@ -167,6 +167,10 @@ impl<'s, M: Matcher, S: Sink> MultiLine<'s, M, S> {
                 if keepgoing {
                     keepgoing = match self.last_match.take() {
                         None => true,
+                        // An empty line range is a match at the position
+                        // following the final line terminator. It is never
+                        // reported, so it must not get any context either.
+                        Some(last_match) if last_match.is_empty() => true,
                         Some(last_match) => {
                             self.sink_context(&last_match)?
                                 && self.sink_matched(&last_match)?
